@@ -111,6 +111,7 @@ class ConfigList(ComposedNode, list):
         self._children = { ((idx+1) if idx >= index else idx): value for idx, value in self._children.items() }
         value = ComposedNode.ayns.set_child(self, index, value)
         list.insert(self, index, value)
+        self._children = { idx: self._children[idx] for idx in range(len(self)) }
 
     if not utils.python_is_at_least(3, 7):
         # for python < 3.7 (i.e., 3.6 and older)
